@@ -3,3 +3,6 @@ import ConduitModel.Spec.DlqWindow
 import ConduitModel.Proofs.DlqWindow
 import ConduitModel.Props.C07
 import ConduitModel.Driver.Main
+import ConduitModel.Model.Funnel
+import ConduitModel.Driver.Funnel
+import ConduitModel.Facts.C07
